@@ -43,10 +43,16 @@ func verifFNV(b []byte) uint32 {
 	return h
 }
 
-func verifPeek(p roaring.IntPeekable) string {
+func verifPeek(p roaring.IntPeekable) (rv string) {
 	if p == nil {
 		return "nil"
 	}
+	// a cursor over a bitmap that has since been recycled by another object may be unusable
+	defer func() {
+		if recover() != nil {
+			rv = "stale"
+		}
+	}()
 	if !p.HasNext() {
 		return "end"
 	}
